@@ -190,9 +190,12 @@ let run_dfsalgo (args : (string * string) list) : string =
         | None -> "FAIL(model-error)");
   let its = if is_panic ts then [] else if ts = "-" then [] else ints_of_string ts in
   if not (is_panic ts) then
-    add "m_ts" (match top_sort g with
-        | Some l -> if List.map ii l = its then "ok" else "FAIL(model:" ^ string_of_ints (List.map ii l) ^ ")"
-        | None -> "FAIL(model-error)");
+    (* WHICH topological order (which reverse postorder) is returned is not fixed by the
+       property; the order is judged by the proved checkers below (ts_perm, ts_valid) and the
+       comparison with the model's order (roots 0..n-1) is recorded only *)
+    add "i_m_ts" (match top_sort g with
+        | Some l -> if List.map ii l = its then "same" else "differs"
+        | None -> "model-error");
   let fmt_order l = if l = [] then "-" else String.concat "," (List.map (fun (((r, p), v), d) ->
       Printf.sprintf "%d.%d.%d.%d" (ii r) (ii p) (ii v) (ii d)) l) in
   if not (is_panic order) then begin
